@@ -17,9 +17,35 @@ CLAIMED = {
  "C06": dict(ref="DESIGN 4 C06", tech="exhaustive exploration of the parent/child relation of the history tree (prefix law bit-for-bit on every edge) and of all (pre-history, window) pairs",
    text="Every edge of the history trees: f(child)[..len-1] == f(parent) bit for bit for all rolling entry points, windows, min_periods and positive-lag shift/diff/pct; every window word with every finite pre-history gives the same last output (exact for min/max/arg/rank)."),
 }
+CLAIMED.update({
+ "C09": dict(ref="DESIGN 4 C09", tech="explicit operation-sequence machine over iterators (next / next_back), exhaustive over recipes and op sequences; remaining-count model",
+   text="Every recipe (source on every back end x parameter band, 0..d adaptors, all 8^d pipelines of a reduced alphabet) is rebuilt and stepped; in every state the upper size hint must equal the items still to come; double-ended sources are explored under every next/next_back sequence; raw trusted collectors run only on validated recipes and must return the safely iterated list."),
+ "C10": dict(ref="DESIGN 4 C10", tech="exhaustive history-tree exploration with runtime monitors: instrumented input / output containers record every unchecked access and every write of the real kernels",
+   text="All rolling, rank, partition and quantile kernels run on ProbeVec inputs and into ProbeOut outputs (and on real Vec / Array1 fast paths into ProbeOut) for every word up to length 4-5, window 0..=len+3, every min_periods, k, mismatched second series, both output paths: no recorded out-of-bounds access, every slot written exactly once."),
+ "C11": dict(ref="DESIGN 4 C11", tech="exhaustive history-tree exploration against two-pass textbook definitions; permutation relation as a differential oracle",
+   text="Every word of the value / pair / boolean alphabets up to length 6-9: 30 aggregations x every min_periods x 5 element types x 3 iterator sources equal the definitions on the non-null sub-list; symmetric ones agree on the sorted permutation."),
+ "C12": dict(ref="DESIGN 4 C12", tech="exhaustive history-tree exploration against sort-and-index order statistics",
+   text="Every word over {null,0..3} up to length 6-7: quantiles on a grid incl. near-integer indices x 4 methods, percentile-of-score x 3 methods, ranks, (arg-)partitions for every k, sort flag and direction, on 4 element types."),
+ "C13": dict(ref="DESIGN 4 C13", tech="exhaustive history-tree exploration against positional definitions; every lag in a band around the length, every fill, every bound pair",
+   text="Every word over {null,-1,0,2} up to length 6-7 x ~150 parameterised operations x 5 element types, consumed by safe iteration: element-by-element equality with the positional model, length law, clip containment / idempotence; short words on every input back end."),
+ "C14": dict(ref="DESIGN 4 C14", tech="exhaustive enumeration of the edge-set lattice x label counts x flags and of all sorted run compositions",
+   text="All 32 ascending edge subsets x 0..6 labels x closedness x bound mode on the full value alphabet incl. the type's MIN/MAX and null (f64 and Option<i32>); all monotone words over 4 symbols up to length 7-9 with null blocks for the unique operations."),
+ "C15": dict(ref="DESIGN 4 C15", tech="exhaustive enumeration of the finite (type, value) lattice with every Cast instance and depth-2 chains; order axioms on all pairs and triples",
+   text="8x8 numeric cast lattice with Option forms on both sides, bool / String / time types as sources and targets, 12-30 values per type incl. extremes, NaN, infinities: nullness algebra, agreement with `as`, composition through Option, comparator preorder axioms."),
+ "C16": dict(ref="DESIGN 4 C16", tech="breadth-first search with dedup over (unit, timestamp) states under unit-conversion actions; chrono as calendar oracle",
+   text="~7000 lattice timestamps per unit (range limits, every residue class boundary of every unit ratio, every month start 1678-2262) x all 16 unit pairs, chains to depth 2-3: floor division toward the past = chrono, exact multiples, NaT preserved; every operator with a NaT operand."),
+ "C17": dict(ref="DESIGN 4 C17", tech="exhaustive enumeration of instant x duration products; chrono / i128 arithmetic as oracle",
+   text="All 3^8 month-free durations on representative years and a duration core on every year 1678-2261 x 4 units for the inverse laws; all 3^10 durations for the group laws; month counts up to +-1200 vs chrono; truncation to 6 fixed grains and 6 month grains on every instant; all component-built times of day."),
+ "C18": dict(ref="DESIGN 4 C18", tech="exhaustive enumeration of all strings up to a length over token alphabets, all well-formed grammar words up to 3 terms, all single-character edits of formatted instants",
+   text="Every string of length <= 5-6 over 14 characters through TimeDelta::parse, <= 4-5 over 12 characters through DateTime::parse, 2-4.5 million well-formed duration words against the i128 sum of terms, round trips of lattice instants through 12 formats at 4 units, every single edit of those texts."),
+ "C19": dict(ref="DESIGN 4 C19", tech="exhaustive enumeration of finite parameter grids; instrumented buffers for the write path",
+   text="range / linspace over integer and dyadic float grids for 5 element types into every container, full / empty, 6 collectors x every container x lists up to length 6-8 with errors at every position and pair of positions, write_trust_iter for every (buffer, iterator) length pair on an exactly-once monitor."),
+ "C20": dict(ref="DESIGN 4 C20", tech="exhaustive enumeration of the ramp family (every (len, L) pair = every path of the doubling search and bisection), all short words, with a termination watchdog",
+   text="half_life on all ramps up to length 48-64 x every min_periods, profile families, every word up to length 6-7; winsorize on every word x 3 methods x parameter grids against own clip bounds; Spearman on all pair words against Pearson of model ranks and under monotone transforms."),
+})
 for _k in CLAIMED: CLAIMED[_k].setdefault("note", COMMON_NOTE)
 
-REASONS_PENDING = "check not built yet in this commit (planned, see DESIGN.md section 4)"
+REASONS_PENDING = "check not built yet in this commit (planned, see DESIGN.md section 4); machinery for it (back-end matrix visitors, encodings) exists in mc-adapt"
 
 def main():
     props = [json.loads(l)["id"] for l in open("/verif/properties.jsonl")]
